@@ -62,7 +62,7 @@ package parser2
 //@   assert[escape-t C15] "str.WriteRune('\\t')" c == '\\' && i == 't'
 //@   assert[escape-quote C15] "str.WriteRune('\"')" c == '\\' && i == '"'
 //@   assert[escape-backslash C15] "str.WriteRune('\\\\')" c == '\\'
-//@   assert[unknown-escape-kept C15] "str.WriteRune(i)" c == '\\' && i != 'n' && i != 'r' && i != 't' && i != '"' && i != '\\'
+//@   assert[unknown-escape-kept C15] "str.WriteRune(i)" c == '\\' && i != 'n' && i != 'r' && i != 't' && i != '"' && i != '\\' && loglen(str) > 0 && logint(str, loglen(str)-1) == '\\'
 //@   assert[plain-rune C15] "str.WriteRune(c)" c != '"' && c != '\\' && c != 0 && c != '\n' && c != '\r'
 //@   assigns t.str, t.last, t.isLast, t.line
 //@   loop 1 invariant rem(t) <= old(rem(t))
